@@ -71,7 +71,7 @@ func c01Witness(c *Ctx) {
 	}
 	// ---- bitmap allocator: index comes from findFreeIndex (which returns i only under Bit(i)==0) or the bind is
 	// dominated by the failure of `Bit(index) == 1`
-	if f := c.fn("pkg/allocator", "IPAllocator", "findFreeIndex"); f != nil {
+	if f := c.P.SSAFunc("pkg/allocator", "IPAllocator", "findFreeIndex"); f != nil { // optional: the search may be written out in Allocate
 		ok := true
 		n := 0
 		for _, b := range f.Blocks {
@@ -127,6 +127,10 @@ func c01Witness(c *Ctx) {
 						}
 					}
 				}
+			}
+			// or every path to the bind has tested this very index to be clear (the search written out in place)
+			if !ok && bitClearOnEveryPath(in, mu.Value) {
+				ok = true
 			}
 			// and the bit is set on the way
 			set := false
@@ -237,6 +241,49 @@ func isPopStore(x ssa.Instruction, field string) bool {
 }
 
 // sameIndex: the two values are the same SSA value up to integer conversions.
+// bitClearOnEveryPath: every feasible path to `at` has tested Bit(idx) to be clear, where idx is followed back
+// through φs (so a search loop that leaves its result in a local counts, as findFreeIndex's return value does).
+func bitClearOnEveryPath(at ssa.Instruction, idx ssa.Value) bool {
+	for {
+		switch x := idx.(type) {
+		case *ssa.Convert:
+			idx = x.X
+			continue
+		case *ssa.ChangeType:
+			idx = x.X
+			continue
+		}
+		break
+	}
+	ok, _ := flow.EveryPathHasFor(at.Block(), idx, func(ft flow.Fact, vals []ssa.Value) bool {
+		bo, isB := ft.Cond.(*ssa.BinOp)
+		if !isB {
+			return false
+		}
+		call, isC := bo.X.(*ssa.Call)
+		if !isC {
+			return false
+		}
+		g := call.Call.StaticCallee()
+		k, isK := constInt(bo.Y)
+		if g == nil || g.Name() != "Bit" || !isK {
+			return false
+		}
+		clear := (bo.Op == token.EQL && ((k == 0 && ft.Pol) || (k == 1 && !ft.Pol))) || (bo.Op == token.NEQ && ((k == 0 && !ft.Pol) || (k == 1 && ft.Pol)))
+		if !clear {
+			return false
+		}
+		arg := call.Call.Args[len(call.Call.Args)-1]
+		for _, v := range vals {
+			if sameIndex(arg, v) {
+				return true
+			}
+		}
+		return false
+	})
+	return ok
+}
+
 func sameIndex(a, b ssa.Value) bool {
 	strip := func(v ssa.Value) ssa.Value {
 		for {
